@@ -481,7 +481,7 @@ fn judge(case_argv: &[Vec<u8>], envp: &[Vec<u8>], keys: &[Vec<u8>], path: &str, 
     }
     let mut look_fails = Vec::new();
     for (k, u, v) in &e.lookups {
-        if scope != Scope::Var {
+        if scope != Scope::Var && !k.contains(&0) {
             judge_lookup("env::var_unix", envp, k, u, false, mode, &mut look_fails);
         }
         if scope != Scope::VarUnix && std::str::from_utf8(k).is_ok() {
@@ -509,7 +509,9 @@ pub fn run_case(env: &Env, c: &Case, scope: Scope) -> CaseResult {
     let ctx = env.ctx;
     let argv: Vec<Vec<u8>> = c.argv.iter().map(|a| strip_nul(&a.bytes())).collect();
     let envp: Vec<Vec<u8>> = c.envp.iter().map(|e| strip_nul(&e.0)).collect();
-    let keys: Vec<Vec<u8>> = c.keys.iter().map(|k| k.0.iter().copied().filter(|&b| b != 0 && b != b'=').collect::<Vec<u8>>()).filter(|k: &Vec<u8>| !k.is_empty()).collect();
+    // (a key with a NUL inside is the shape "entry, terminator, next name" and is taken as it is; anything else is
+    // brought into the domain of names: no '=')
+    let keys: Vec<Vec<u8>> = c.keys.iter().map(|k| if k.0.contains(&0) { k.0.clone() } else { k.0.iter().copied().filter(|&b| b != b'=').collect::<Vec<u8>>() }).filter(|k: &Vec<u8>| !k.is_empty()).collect();
     let mut rep = CaseReport::new();
     if argv.is_empty() {
         return Ok(rep); // only reachable from a hand-written replay file
@@ -542,6 +544,7 @@ pub fn run_case(env: &Env, c: &Case, scope: Scope) -> CaseResult {
         rep.class_if(std::str::from_utf8(k).is_err(), "non-utf8-key");
         rep.class_if(envp.iter().any(|e| !e.contains(&b'=') && e == k), "key-equals-entry-without-equals");
     }
+    rep.class_if(keys.iter().any(|k| k.contains(&0)), "key-spans-two-entries-of-the-block");
     rep.class_if(ext, "key-is-proper-extension-of-a-name");
     rep.class_if(pre, "key-is-proper-prefix-of-a-name");
     rep.class_if(dup, "duplicate-name");
